@@ -173,8 +173,20 @@ def gen_filter(rng, tier):
             hw[2] = 0
         w = rng.uniform(0, 1, tuple(2 * h + 1 for h in hw))
         o = dict(weights=w if dom.dim == 3 else w[:, :, 0])
-    mk = lambda s: pym.FilterConv(s, pym.Signal("y"), dom, **o, **bcs)  # noqa: E731
-    return Cfg("FilterConv", f"FilterConv/dim{dom.dim}/{'radius' if 'radius' in o else 'weights'}/" + "/".join(str(v)[:3] for v in bcs.values()),
+    ovr = None
+    if rng.random() < 0.35:
+        # some elements fixed to a value after construction (non-design regions): the output is affine in x and does not depend on
+        # the fixed elements at all
+        n3 = (dom.nelx, dom.nely, max(dom.nelz, 1))
+        ovr = ((slice(0, max(1, n3[0] // 2)), slice(None), slice(None)) if rng.random() < 0.5 else
+               tuple(int(rng.integers(-n3[a], n3[a])) for a in range(3)), float(rng.choice([0.0, 1.0, 0.3])))
+
+    def mk(s):
+        m = pym.FilterConv(s, pym.Signal("y"), dom, **o, **bcs)
+        if ovr is not None:
+            m.override_values(*ovr)
+        return m
+    return Cfg("FilterConv", f"FilterConv/dim{dom.dim}/{'radius' if 'radius' in o else 'weights'}/ovr{ovr is not None}/" + "/".join(str(v)[:3] for v in bcs.values()),
                lambda: mk(_S("x", x)), [x])
 
 
@@ -258,6 +270,18 @@ def gen_linsolve(rng, tier):
     ascale = 10 ** rng.uniform(-1, 1) if rng.random() < 0.7 else 10.0 ** rng.uniform(-4, 12)   # (below 1e-6: known finding K2 of C05)
     A = matgen.make(rng, cls, n, cond=10 ** rng.uniform(0, 2.5), scale=ascale)
     cA = np.iscomplexobj(A)
+    decoupled = False
+    if cls in ("gen", "cgen", "sym", "csym") and n >= 3 and rng.random() < 0.3:
+        # some dofs decoupled (rows and columns zero apart from the diagonal, as constrained dofs are), complex diagonal for complex data
+        idx = rng.choice(n, size=int(rng.integers(1, n - 1)), replace=False)
+        dg = ascale * rng.uniform(0.5, 2.0, idx.size) * (np.exp(1j * rng.uniform(0, 2 * np.pi, idx.size)) if cA else rng.choice([-1.0, 1.0], idx.size))
+        A2 = A.copy()
+        A2[idx, :] = 0
+        A2[:, idx] = 0
+        A2[idx, idx] = dg
+        rest = np.setdiff1d(np.arange(n), idx)
+        if np.linalg.cond(A2[np.ix_(rest, rest)]) < 1e4 and (cls in ("sym", "csym") or not np.allclose(A2, A2.T)):
+            A, decoupled = A2, True
     form = str(rng.choice(["v", "c1", "blk", "blkdep"]))
     k = {"v": None, "c1": 1, "blk": 3, "blkdep": 3}[form]
     b = rng.standard_normal(n if k is None else (n, k))
@@ -298,13 +322,16 @@ def gen_linsolve(rng, tier):
         vb = rand_like(r_, b)
         if form == "blkdep" and r_.random() < 0.5:
             vb[:, 2] = vb[:, 0] - 2 * vb[:, 1]
-        return [_class_dir(r_, As, cls), vb]
+        dA = _class_dir(r_, As, cls)
+        if decoupled and not sps.issparse(As):
+            dA = dA * (np.asarray(As) != 0)        # the decoupled dofs stay decoupled (their diagonal entries do vary)
+        return [dA, vb]
 
     def tangent(x0, y0, v):
         Ad, dA = todense(x0[0]), todense(v[0])
         x = np.linalg.solve(Ad, x0[1])
         return [np.linalg.solve(Ad, v[1] - dA @ x)]
-    return Cfg("LinSolve", f"LinSolve/{cls}/{st}/{form}/cb{cb}/{sol}", build, [As, b], dirs=dirs, tangent=tangent, tol=tol)
+    return Cfg("LinSolve", f"LinSolve/{cls}/{st}/{form}/cb{cb}/{sol}/dec{decoupled}", build, [As, b], dirs=dirs, tangent=tangent, tol=tol)
 
 
 def gen_inverse(rng, tier):
